@@ -23,12 +23,17 @@ returns the object that was passed in); a collection whose member was re-linked 
 collection with ``copy_fields=False`` is stale by the documented restriction and is retired
 from the population; ghost cells of freshly produced fields are unspecified - a new result
 is judged on its valid cells (NaN-safe) and its ghost cells are then adopted by the model.
+Collections are created from both documented input formats, a sequence and a mapping
+label -> field (dict / read-only mapping; the keys become the member labels, a ``labels``
+argument is ignored); both are modelled identically: a field object that occurs twice forces
+a copy of all fields (seed C15-4: the repetition was not detected for mappings).
 """
 
 from __future__ import annotations
 
 import logging
 import operator
+import types
 import warnings
 
 import numpy as np
@@ -76,6 +81,9 @@ AXES = {"polar": ["r", "φ"], "sph": ["r", "θ", "φ"], "cyl": ["r", "z", "φ"]}
 NUMBERS = [2.0, -1.0, 0.5, 3.0, -3.0, 7.0, 0.0]
 RTOL = 1e-12
 MAXPOP = 10
+#: labels for the members of a collection (mapping keys / ``labels`` argument); "a", "b", "zz" are
+#: also the labels that ``getitem`` asks for
+COLLECT_KEYS = ["a", "b", "zz", "c"]
 
 
 def np_dtype(code):
@@ -419,8 +427,15 @@ class AliasHistory(History):
     def b_collect(self):
         if not self.room() or not self.has(lambda e: e.kind in DATA_KINDS):
             return None
-        return st.fixed_dictionaries({"hs": st.lists(st.integers(0, 20), min_size=1, max_size=3),
-                                      "copy_fields": st.booleans()})
+        hs = st.lists(st.integers(0, 20), min_size=1, max_size=3)
+        # the same field OBJECT at two positions (documented: forces a copy of all fields)
+        dup = st.lists(st.integers(0, 20), min_size=1, max_size=2).map(lambda x: [*x, x[0]])
+        return st.fixed_dictionaries({"hs": st.one_of(hs, hs, dup),
+                                      "copy_fields": st.sampled_from([False, False, True]),
+                                      # input format: sequence or mapping label -> field
+                                      "fmt": st.sampled_from(["list", "list", "dict", "dict", "proxy"]),
+                                      "keys": st.permutations(COLLECT_KEYS).map(lambda x: list(x[:3])),
+                                      "labels_arg": st.sampled_from([False, False, True])})
 
     def _has_coll(self):
         return self.has(lambda e: e.kind == "coll")
@@ -579,8 +594,16 @@ class AliasHistory(History):
         self.flags.add("copy:" + ("coll" if src.kind == "coll" else "field"))
         self.add(e)
 
-    def op_collect(self, hs, copy_fields):
-        self.ctx = "collect:" + ("copy" if copy_fields else "link")
+    def op_collect(self, hs, copy_fields, fmt="list", keys=None, labels_arg=False):
+        """``FieldCollection(fields)`` with ``fields`` a list or a mapping label -> field.
+
+        Documented: a mapping is equivalent to the sequence of its values with the keys as the
+        labels of the members (a ``labels`` argument is then ignored with a warning); identical
+        field objects in the input force a copy of all fields, the originals are left untouched;
+        otherwise ``copy_fields`` decides between copies and re-linking the supplied objects.
+        """
+        mapping = fmt != "list"
+        self.ctx = "collect:" + ("copy" if copy_fields else "link") + (":mapping" if mapping else "")
         if not self.room():
             return
         first = self.pick(hs[0], lambda e: e.kind in DATA_KINDS)
@@ -588,6 +611,10 @@ class AliasHistory(History):
             return
         srcs = [first] + [self.pick(i, lambda e: e.kind in DATA_KINDS and self.same_grid(e.gidx, first.gidx))
                           for i in hs[1:]]
+        n = len(srcs)
+        keys = list(keys or COLLECT_KEYS)[:n]
+        if len(keys) != n or len(set(keys)) != n:
+            raise AssertionError("collect: need distinct keys")
         repeated = len({id(s) for s in srcs}) < len(srcs)
         copies = copy_fields or repeated  # documented: identical fields force a copy
         gidx = first.gidx
@@ -597,24 +624,59 @@ class AliasHistory(History):
         buf = np.concatenate(rows, axis=0).astype(dtype)  # fields in order, components row-major
         was_member = [s for s in srcs if s.owner is not None]
         mixed = dtype.kind == "c" and any(s.full.dtype.kind != "c" for s in srcs)
+        src_labels = [s.obj.label for s in srcs]
+        kw = {}
+        if copy_fields:
+            kw["copy_fields"] = True  # otherwise left at its default (False)
+        if mapping:
+            arg = dict(zip(keys, [s.obj for s in srcs]))  # insertion order = order of the fields
+            if len(arg) != n:
+                raise AssertionError("collect: mapping lost an entry")
+            if fmt == "proxy":
+                arg = types.MappingProxyType(arg)
+            want_labels = keys  # documented: the keys set the names of the individual fields
+            if labels_arg:
+                kw["labels"] = [f"ignored{k}" for k in range(n)]  # documented: ignored (warning)
+        else:
+            arg = [s.obj for s in srcs]
+            want_labels = src_labels  # documented: labels from the fields unless `labels` is given
+            if labels_arg:
+                kw["labels"] = want_labels = keys
         with warnings.catch_warnings():
             warnings.simplefilter("ignore")
-            obj = FieldCollection([s.obj for s in srcs], copy_fields=copy_fields)
+            obj = FieldCollection(arg, **kw)
         if obj._data_full.dtype != dtype:
             self.fail("dtype", f"collection dtype {obj._data_full.dtype}, expected {dtype}")
         e = self.register_collection(obj, buf, kinds, gidx, self.ctx, members=None if copies else srcs)
         if copies:
             for k, s in enumerate(srcs):
-                if obj.fields[k] is s.obj:
+                if any(f is s.obj for f in obj.fields):
                     self.fail("identity", "copy_fields=True (or repeated field) but the collection holds the "
                               "original field object")
+                if s.obj.label != src_labels[k]:
+                    self.fail("label", f"fields were copied but the label of source field {k} changed from "
+                              f"{src_labels[k]!r} to {s.obj.label!r} (documented: originals are left untouched)")
                 s.copy_related = True
+            if len({id(f) for f in obj.fields}) != n:
+                self.fail("identity", "one field object occupies two slots of the collection")
             e.copy_related = True
             self.flags.add("collect:copy" + (":repeated" if repeated and not copy_fields else ""))
         else:
             self.flags.add("collect:link")
             if was_member:
                 self.flags.add("collect:relink-member")
+        got_labels = [f.label for f in obj.fields]
+        if got_labels != list(want_labels) or list(obj.labels) != list(want_labels):
+            origin = "mapping keys" if mapping else "labels argument" if labels_arg else "labels of the fields"
+            self.fail("label", f"member labels {got_labels} / collection.labels {list(obj.labels)}, expected "
+                      f"{list(want_labels)} ({origin})")
+        if mapping:
+            self.flags.add("collect:mapping:" + ("repeated" if repeated and not copy_fields else
+                                                 "copy" if copies else "link"))
+            if labels_arg:
+                self.flags.add("collect:mapping:labels-arg-ignored")
+        elif labels_arg:
+            self.flags.add("collect:labels-arg")
         if mixed and not copies:
             self.flags.add("collect:upcast-linked")  # a linked real field became complex
         self.add(e)
